@@ -1,15 +1,15 @@
 SPECIFICATION Spec
 CONSTANTS
-  M = {1, 2}
-  MaxN = 3
+  M = {1, 2, 3}
+  MaxN = 2
   Delays = {0, 1}
   Actives = {0, 1, 2}
   Starts = {2}
   InitBlocks = {1, 3}
-  MaxMsgs = 1
+  MaxMsgs = 0
   Slack = 1
   Faults = {"delay"}
   BadMsgs = {FALSE}
   Prompt = TRUE
-INVARIANTS TypeOK BlockExactInit BlockExactEnd FinishExact NeverEarly InOrder RegisteredIff FailureOutcome FifoNoLoss NotToEarlierState Lockstep LockstepPrompt PromptExact
+INVARIANTS TypeOK BlockExactInit BlockExactEnd FinishExact NeverEarly InOrder RegisteredIff FailureOutcome FifoNoLoss NotToEarlierState Lockstep LockstepPrompt PromptExact DelayProtects InWindowDelivered
 PROPERTIES HandOffDiscipline Monotone
